@@ -52,6 +52,8 @@ st = sh("git -C /repo status --porcelain")[1].strip()
 if st:
     print("refusing: /repo not clean:\n" + st); sys.exit(2)
 rc, o = sh("git -C /repo apply %s" % patch)
+if rc != 0:  # /repo may have gained hook lines since the seed was written: retry with fuzz
+    rc, o = sh("cd /repo && patch -p1 -F3 --no-backup-if-mismatch < %s" % patch)
 results = {}
 if rc != 0:
     print("patch does not apply to /repo:", o)
